@@ -76,6 +76,21 @@ func makeAnnoCase(r *fw.Rng, thorough bool, format, form string, vp gen.VarProfi
 	}
 	ac.an = gen.MakeAnnotation(r, L, opts)
 	ac.format, ac.form = format, form
+	if opts.QuoteNames && format == "gff" && r.Chance(0.25) {
+		// a GFF3 written GTF-style: Name="spike" with the quotes in the file. The name is what stands
+		// after the '=', quotes and all, wherever it is printed
+		for i := range ac.an.Feats {
+			if ac.an.Feats[i].Name != "" && !strings.ContainsAny(ac.an.Feats[i].Name, "\"%") {
+				old := ac.an.Feats[i].Name
+				for j := range ac.an.Feats {
+					if ac.an.Feats[j].Name == old {
+						ac.an.Feats[j].Name = "\"" + old + "\""
+					}
+				}
+				break
+			}
+		}
+	}
 	if opts.AmbigRef && r.Chance(0.3) {
 		ambiguateReference(r, &ac.an)
 	}
